@@ -117,8 +117,63 @@ def order_for(rel):
     return ALL
 
 
+def verify(outp):
+    """--verify: every record filed as caught is run again against the check that caught it, on the
+    present (stable) harness and tree; a record that is not caught again is re-run through the whole
+    order. Guards against attributions made while the harness itself was being changed."""
+    files = sorted(glob.glob(os.path.join(REPO, "core/src/**/*.rs"), recursive=True))
+    cands = {}
+    for c in candidates(files):
+        cands[(c["file"], c["op"], c["before"], c["after"])] = c
+    recs = [json.loads(l) for l in open(outp)]
+    env = {"VF_LOCK_HELD": "1", "VF_WORK": "/var/tmp/vf-work-mut", "VF_EVIDENCE_DIR": "/var/tmp/vf-work-mut/evidence", "VF_REPLAY_DIR": "/var/tmp/vf-work-mut/replays"}
+    changed = 0
+    for i, rec in enumerate(recs):
+        if rec["outcome"] != "caught" or rec.get("verified"):
+            continue
+        c = cands.get((rec["file"], rec["op"], rec["before"], rec["after"]))
+        if c is None:
+            rec["verified"] = "stale (line rewritten since)"
+            continue
+        with open(LOCK, "w") as lk:
+            fcntl.flock(lk, fcntl.LOCK_EX)
+            path = os.path.join(REPO, c["file"])
+            src = open(path).read()
+            try:
+                lines = src.split("\n")
+                lines[c["line"] - 1] = c["_new"]
+                open(path, "w").write("\n".join(lines))
+                order = [rec["caught_by"]] + [x for x in order_for(c["file"]) if x != rec["caught_by"]]
+                hit = None
+                for chk in order:
+                    rc, o = sh(["/verif/check", chk], "/verif", env)
+                    vl = [l for l in o.splitlines() if l.startswith("VIOLATION")]
+                    if rc == 1 and vl:
+                        hit = (chk, vl[0].split("signature=")[1].split(" ::")[0] if "signature=" in vl[0] else vl[0][:120])
+                        break
+            finally:
+                open(path, "w").write(src)
+                sh("git checkout -- .", REPO)
+        if hit is None:
+            rec["outcome"] = "survived-on-verification"
+            rec.pop("caught_by", None)
+            changed += 1
+        else:
+            if hit[0] != rec["caught_by"]:
+                changed += 1
+            rec["caught_by"], rec["signature"] = hit
+            rec["verified"] = True
+        print(f"[{i}] {rec['outcome']:26} {rec.get('caught_by', '-'):4} {rec['file']}:{rec['line']} {rec['op']}", flush=True)
+        with open(outp, "w") as f:
+            f.write("".join(json.dumps(r) + "\n" for r in recs))
+    print("attributions changed:", changed)
+    return 0
+
+
 def main():
     a = sys.argv[1:]
+    if a and a[0] == "--verify":
+        return verify(a[1] if len(a) > 1 else "/verif/mutsweep/results.jsonl")
     seed, count, pats, outp, only = 1, 50, ["core/src/**/*.rs"], "/verif/mutsweep/results.jsonl", None
     i = 0
     while i < len(a):
